@@ -41,6 +41,31 @@ def build(rng, **kw):
     tk = dict(n_sites=rng.randint(3, 6), max_spans=3, whole_km=True, long_fibers=rng.random() < 0.2, max_km=140)
     tk.update(kw)
     tj, tdesc = G.gen_topology(rng, **tk)
+    if rng.random() < 0.3 and ej['Span'][0].get('power_mode', True):
+        # Raman-amplified spans on some links (between two amplifiers of the topology file): a span is a span, whatever
+        # its fibre type, when route lengths are compared
+        typ = {e['uid']: e for e in tj['elements']}
+        pred = {c['to_node']: c['from_node'] for c in tj['connections'] if typ[c['to_node']]['type'] == 'Fiber'}
+        succ = {c['from_node']: c['to_node'] for c in tj['connections'] if typ[c['from_node']]['type'] == 'Fiber'}
+        n = 0
+        for e in tj['elements']:
+            if e['type'] == 'Fiber' and typ[pred[e['uid']]]['type'] == 'Edfa' and \
+                    typ[succ[e['uid']]]['type'] in ('Edfa', 'Fused') and rng.random() < 0.7 and \
+                    not isinstance(e['params'].get('loss_coef'), dict) and 30 <= e['params']['length'] <= 120:
+                rf = P.raman_fiber(rng, e['uid'], length=e['params']['length'])
+                e.update(type='RamanFiber', operational=rf['operational'])
+                e['params'].pop('lumped_losses', None)
+                for k in ('con_in', 'con_out'):
+                    if e['params'].get(k) is None:
+                        e['params'][k] = 0.5
+                up = typ[pred[e['uid']]]
+                up.setdefault('operational', {})
+                if up['operational'].get('delta_p') is None:
+                    up['operational']['delta_p'] = 0        # (without it the design stops: listed finding of C08)
+                if not up.get('type_variety'):
+                    up['type_variety'] = 'std_medium_gain'
+                n += 1
+        tdesc['raman_spans'] = n
     equipment = G.make_equipment(ej)
     network = G.make_network(tj, equipment)
     SimParams.set_params({})
